@@ -28,7 +28,9 @@ func Register() {
 			"farm.stake_after_end_rejected", "farm.epilogue_unstakes", "farm.full_withdrawal", "farm.pool_future_start",
 			"farm.multi_denom_pool", "farm.destroy_with_stakers", "farm.pool_ended_with_stakers", "farm.huge_stake",
 			"farm.unstake_beyond_stake_rejected", "farm.multi_msg_tx_accepted", "farm.multi_msg_tx_rolled_back",
-			"C13.farm_queue_checks"},
+			"C13.farm_queue_checks", "C05.branch_drains", "C05.unstake_reward_checks", "farm.tenth_pool_created",
+			"farm.op_on_pool_whose_id_prefixes_another", "farm.same_block_later_harvest", "farm.same_block_later_unstake",
+			"farm.three_ops_one_pool_one_block", "farm.pool_expired_nothing_to_refund_last_span_in_end_block"},
 		Rule: "a run is non-trivial when more than two withdrawals within the recorded stake had their verdict compared (must succeed), more than four accepted stake/unstake messages had their balance sheet compared, and the per-pool stake sums and the escrow identity were compared after blocks; distinct = different fingerprint of the executed (operation kind, outcome class) sequence",
 	})
 	engine.RegisterProperty(&engine.Property{
@@ -43,7 +45,10 @@ func Register() {
 			"farm.adjust_end_block", "farm.adjust_before_start", "farm.adjust_ends_pool_at_once", "farm.destroy_end_block",
 			"farm.destroy_before_start", "farm.harvest", "farm.harvest_zero_pending", "farm.harvest_end_block",
 			"farm.harvest_after_end_rejected", "farm.span_without_stake", "farm.multi_denom_different_exhaustion",
-			"farm.pools_end_same_height", "farm.pool_ended_budget_exhausted", "farm.params_changed", "farm.params_rejected"},
+			"farm.pools_end_same_height", "farm.pool_ended_budget_exhausted", "farm.params_changed", "farm.params_rejected",
+			"farm.gov_pool_in_genesis", "farm.gov_pool_expired", "C06.community_pool_checks", "farm.tenth_pool_created",
+			"farm.op_on_pool_whose_id_prefixes_another", "farm.same_block_later_harvest",
+			"farm.pool_expired_nothing_to_refund_last_span_in_end_block"},
 		Rule: "a run is non-trivial when more than two positive release spans were accounted, more than two payouts were compared with the exact model, the budget identity was compared after blocks, at least one pool ended (end block or destroy) with its refund compared, and at least one farmer who withdrew everything had the cumulative payout judged against the exact stake-weighted share; distinct = different fingerprint of the executed (operation kind, outcome class) sequence",
 	})
 }
